@@ -57,6 +57,9 @@ pub struct HetHeader {
 impl HetTable {
     const SIGNATURE: u32 = 0x1A544548; // "HET\x1A"
 
+    /// Value of a slot of the name hash array that has never been used (`HET_ENTRY_FREE`)
+    pub const ENTRY_FREE: u8 = 0x00;
+
     /// Read and decompress/decrypt a HET table
     pub fn read<R: Read + Seek>(
         reader: &mut R,
@@ -290,8 +293,9 @@ impl HetTable {
                 "HET find_file_with_collision_info: checking index {index}, stored_hash=0x{stored_hash:02X}, looking for=0x{name_hash1:02X}"
             );
 
-            // Check for empty slot (0xFF = HET_TABLE_EMPTY)
-            if stored_hash == 0xFF {
+            // A free slot ends the probe sequence. Name hash 1 of a file always has its
+            // top bit set, 0xFF is an ordinary name hash
+            if stored_hash == Self::ENTRY_FREE {
                 log::debug!(
                     "HET find_file_with_collision_info: hit empty slot at index {index}, search complete"
                 );
